@@ -50,7 +50,7 @@ def plan(tier):
     return units
 
 
-NAMES = ('a', 'b', 'i', 'zz')
+NAMES = ('a', 'b', 'i', 'zz', 'k1', 'k2', 'k3')
 
 
 def _call(f, *args):
@@ -212,6 +212,13 @@ def objects_for(t, sort, r=None):
                     out.append((f'api-event t as {alias} {{ {text} }}', e1))
                     e2 = A.HplEventDisjunction(A.HplSimpleEvent.publish('u', alias='b'), A.HplEventDisjunction(e1, A.HplSimpleEvent.publish('w')))
                     out.append((f'api-disjunction (u as b or (t as {alias} {{ {text} }} or w))', e2))
+                    # alternatives that each have references of their own, in both orders
+                    q1 = impl.parser('pred').parse('{ x > @k1.f }')
+                    q2 = impl.parser('pred').parse('{ forall i in @k2.xs: @i > @k3.f }')
+                    e3 = A.HplEventDisjunction(A.HplSimpleEvent.publish('u', predicate=q1), A.HplEventDisjunction(e1, A.HplSimpleEvent.publish('w', predicate=q2, alias='k2')))
+                    out.append((f'api-disjunction (u {{x > @k1.f}} or (t as {alias} {{ {text} }} or w as k2 {{...@k2, @k3}}))', e3))
+                    e4 = A.HplEventDisjunction(A.HplEventDisjunction(A.HplSimpleEvent.publish('w', predicate=q2), e1), A.HplSimpleEvent.publish('u', predicate=q1, alias='k1'))
+                    out.append((f'api-disjunction ((w {{...}} or t as {alias} {{ {text} }}) or u as k1 {{x > @k1.f}})', e4))
                 except Exception as ex:  # noqa: BLE001
                     if r is not None:
                         r.notes['api event rejected: ' + type(ex).__name__] += 1
